@@ -148,6 +148,71 @@ def directKw (a : CtorArgs) : ParserKw where
   hugeTree := a.hugeTree
   compact := a.compact
 
+/-! ### after construction: `set_validator`, `set_app`, anything that runs before a request
+
+`parser_kwargs` is a plain dict on the instance; what reaches `XMLParser` is its content AT REQUEST
+TIME.  The effect of the whole configuration path (validator choice, Application construction,
+server construction) on every key is measured on live objects. -/
+
+inductive Validator where
+  | none | soft | lxml
+  deriving DecidableEq, Repr
+
+/-- what the configuration path does to one boolean key -/
+inductive KwWrite where
+  | keep            -- the constructor's value survives
+  | set (b : Bool)  -- forced to a constant
+  | other           -- anything else
+  deriving DecidableEq, Repr
+
+inductive RWrite where
+  | keep | set (r : Resolve) | other
+  deriving DecidableEq, Repr
+
+def KwWrite.apply : KwWrite → Bool → Bool
+  | .keep, b => b
+  | .set c, _ => c
+  | .other, b => !b
+
+def RWrite.apply : RWrite → Resolve → Resolve
+  | .keep, r => r
+  | .set c, _ => c
+  | .other, _ => .all
+
+structure PostInit where
+  attributeDefaults : KwWrite
+  dtdValidation : KwWrite
+  loadDtd : KwWrite
+  noNetwork : KwWrite
+  nsClean : KwWrite
+  recover : KwWrite
+  removeBlankText : KwWrite
+  removeComments : KwWrite
+  removePis : KwWrite
+  stripCdata : KwWrite
+  resolveEntities : RWrite
+  hugeTree : KwWrite
+  compact : KwWrite
+  deriving DecidableEq, Repr
+
+def PostInit.keepAll : PostInit :=
+  ⟨.keep, .keep, .keep, .keep, .keep, .keep, .keep, .keep, .keep, .keep, .keep, .keep, .keep⟩
+
+def PostInit.apply (w : PostInit) (k : ParserKw) : ParserKw where
+  attributeDefaults := w.attributeDefaults.apply k.attributeDefaults
+  dtdValidation := w.dtdValidation.apply k.dtdValidation
+  loadDtd := w.loadDtd.apply k.loadDtd
+  noNetwork := w.noNetwork.apply k.noNetwork
+  nsClean := w.nsClean.apply k.nsClean
+  recover := w.recover.apply k.recover
+  removeBlankText := w.removeBlankText.apply k.removeBlankText
+  removeComments := w.removeComments.apply k.removeComments
+  removePis := w.removePis.apply k.removePis
+  stripCdata := w.stripCdata.apply k.stripCdata
+  resolveEntities := w.resolveEntities.apply k.resolveEntities
+  hugeTree := w.hugeTree.apply k.hugeTree
+  compact := w.compact.apply k.compact
+
 /-- a DTD is loaded when any of these is requested (lxml: "A DTD will also be loaded if DTD
     validation or attribute default values are requested") -/
 def ParserKw.dtdLoads (kw : ParserKw) : Bool :=
@@ -643,11 +708,22 @@ structure Facts17 where
   sites : List ParseSite
   /-- calls of `.xinclude()` / `ElementInclude` in the scanned request-path modules -/
   xincludeCalls : Nat
-  /-- keys of `parser_kwargs` other than the modelled ones and `encoding` (e.g. `schema`, `target`) -/
+  /-- keys of `parser_kwargs` AT REQUEST TIME (any protocol, any validator) other than the modelled
+      ones and `encoding` (e.g. `schema`, `target`, `collect_ids`, `decompress`) -/
   extraKwKeys : Nat
+  /-- effect of validator choice + Application/server construction on the keyword table -/
+  post : Proto → Validator → PostInit
+  /-- the keyword table of a default-constructed protocol at request time, per validator -/
+  liveAtRequest : Proto → Validator → ParserKw
+  /-- statements in spyne/ that write to a `parser_kwargs` outside an `__init__` -/
+  kwWritesOutsideInit : Nat
   /-- lxml's module default parser, measured by behaviour -/
   lxmlDefault : ParserKw
   lib : Lib
+
+/-- the keyword table handed to `XMLParser` when a request arrives -/
+def parserKwargsAtRequest (F : Facts17) (p : Proto) (v : Validator) (a : CtorArgs) : ParserKw :=
+  (F.post p v).apply (parserKwargs (F.plumb p) a)
 
 /-- parser expression in force for a role: the worst one among its sites -/
 def roleParser (sites : List ParseSite) (r : Role) : Option ParserExpr :=
